@@ -1036,6 +1036,51 @@ def truthiness_exact(ck, F, rule="TABLE-ops"):
 
 
 # ------------------------------------------------------------------------------------------------ C05 CLIP-SHEET
+_FCP = {}
+
+
+def _formula_cell_params(F, b, depth=0):
+    """Parameters of a function implementation that hold the coordinates of the cell containing the formula: the single
+    by-value CellReferenceIndex parameter of an `fn_*(&mut self, args, cell)` entry; for a private helper that receives several
+    references, the parameters its callers fill with their own formula-cell parameter."""
+    from effects import Program
+    CRI = "ironcalc_base::expressions::types::CellReferenceIndex"
+    if b.path in _FCP:
+        return _FCP[b.path]
+    cri = [i for i in range(1, b.nargs + 1) if b.locals[i].replace("&", "").strip() == CRI]
+    if len(cri) <= 1 or depth > 1:
+        _FCP[b.path] = set(cri)
+        return _FCP[b.path]
+    _FCP[b.path] = set()
+    out = set()
+    P = Program(F)
+    for c in P.callers_of([b.path]):
+        if not F.has(c):
+            continue
+        cb = F.body(c)
+        theirs = _formula_cell_params(F, cb, depth + 1)
+        for bi, t in cb.calls():
+            if cb.callee(t) != b.path:
+                continue
+            for i, a in enumerate(t["args"], 1):
+                pl = op_place(a)
+                l = pl["l"] if pl is not None and not place_proj(pl) else None
+                for _ in range(4):
+                    if l is None or 1 <= l <= cb.nargs:
+                        break
+                    rv = cb.def_rvalue(l)
+                    if rv is not None and rv["k"] in ("use", "cast") and op_place(rv["o"]) is not None and not place_proj(op_place(rv["o"])):
+                        l = op_place(rv["o"])["l"]
+                    elif rv is not None and rv["k"] == "ref" and all(e[0] == "*" for e in place_proj(rv["p"])):
+                        l = rv["p"]["l"]
+                    else:
+                        l = None
+                if l in theirs and i in cri:
+                    out.add(i)
+    _FCP[b.path] = out
+    return out
+
+
 def clip_sheet(ck, F, rule="CLIP-SHEET"):
     """A whole-row / whole-column range is clipped to the used extent of *its own* sheet: in every function
     implementation that calls Worksheet::dimension, the index handed to Workbook::worksheet comes from the evaluated range
@@ -1063,7 +1108,7 @@ def clip_sheet(ck, F, rule="CLIP-SHEET"):
             rp = b.resolve_place(pl, through_named=True)
             base = rp["l"]
             ty = b.locals[base].replace("&", "").strip()
-            is_formula_cell = 1 <= base <= b.nargs and ty == CRI
+            is_formula_cell = 1 <= base <= b.nargs and ty == CRI and base in _formula_cell_params(F, b)
             k += 1
             n += 1
             f, l = b.loc(bi)
